@@ -970,7 +970,9 @@ func (m *Model) pickReturn(ev Event) {
 			cm.ch = placedCh
 			cm.placed = true
 			m.chans[placedCh].inflight++
-			if m.track && cm.cKey != "" && cm.cSeq == m.coreSeq && m.allReady() {
+			// (an UNBIND for the key that became visible while this pick ran may have
+			// completed before it looked the key up)
+			if m.track && cm.cKey != "" && cm.cSeq == m.coreSeq && m.allReady() && !m.cDropped[cm.cKey] {
 				if h, ok := m.cHome[cm.cKey]; ok && h != placedCh {
 					m.vAlways("C01", "bound-key-moved-without-unbind", "concurrent", fmt.Sprintf("call %d %s for key %q was placed on channel %d, an earlier call for the same key (after its BIND had completed, no UNBIND ever started, all channels READY) on channel %d", c.ID, c.MethodName, cm.cKey, placedCh, h), ev.Op)
 				} else {
